@@ -729,3 +729,101 @@ func TestC19Write(t *testing.T) {
 		}
 	})
 }
+
+// TestC19WriteConcurrent: wsjson.Write from several goroutines on one connection (Write is
+// documented as safe for concurrent use). Each call must put exactly one text message on
+// the wire whose payload is one JSON value, equivalent to one of the values written, each
+// value once. With compression negotiated a message goes through the connection's shared
+// streaming writer, which is where two writers can meet.
+func TestC19WriteConcurrent(t *testing.T) {
+	rec := evid.For("C19")
+	checkProp(t, func(rt *rapid.T) {
+		mode := rapid.SampledFrom(c16Modes).Draw(rt, "mode")
+		writers := rapid.IntRange(2, 5).Draw(rt, "writers")
+		per := rapid.IntRange(1, 6).Draw(rt, "valuesPerWriter")
+		big := rapid.Bool().Draw(rt, "bigValues")
+		var fail string
+		rapid.SyncTest(rt, func(rt *rapid.T) {
+			e := newEnv(rt)
+			defer e.Teardown()
+			lc, err := e.open(connSpec{Client: mode.Client, Mode: mode.Mode, Ext: mode.Ext, Threshold: 16})
+			if err != nil {
+				fail = err.Error()
+				return
+			}
+			lc.Peer.onFrame = func(f ref.Frame) {
+				if f.Opcode == ref.OpClose {
+					lc.Peer.send(ref.Frame{Fin: true, Opcode: ref.OpClose, Payload: f.Payload})
+				}
+			}
+			lc.Peer.start(e)
+			want := map[string]int{}
+			var dones []<-chan struct{}
+			errs := make([]error, writers)
+			for w := 0; w < writers; w++ {
+				w := w
+				var vals []any
+				for i := 0; i < per; i++ {
+					v := map[string]any{"writer": w, "seq": i, "pad": strings.Repeat(string(rune('a'+w)), 40+i)}
+					if big {
+						v["pad"] = strings.Repeat(string(rune('a'+w)), 5000+i)
+					}
+					b, _ := json.Marshal(v)
+					want[string(b)]++
+					vals = append(vals, v)
+				}
+				dones = append(dones, e.Call(func() {
+					for _, v := range vals {
+						if err := wsjson.Write(context.Background(), lc.C, v); err != nil {
+							errs[w] = err
+							return
+						}
+					}
+				}))
+			}
+			for w, d := range dones {
+				if !within(d, 120*time.Second) {
+					fail = "a wsjson.Write did not return"
+					return
+				}
+				if errs[w] != nil {
+					fail = fmt.Sprintf("wsjson.Write of writer %d failed: %v", w, errs[w])
+					return
+				}
+			}
+			lc.C.Close(websocket.StatusNormalClosure, "")
+			lc.Peer.waitEOF(30 * time.Second)
+			rep, verr := ref.ValidateStream(lc.End.InRecording(), ref.StreamOpts{FromClient: mode.Client, Deflate: lc.Agreed.Deflate, Takeover: lc.Agreed.SenderTakeover(mode.Client)}, false)
+			if verr != nil {
+				fail = "emitted stream invalid: " + verr.Error()
+				return
+			}
+			if len(rep.Messages) != writers*per {
+				fail = fmt.Sprintf("%d messages on the wire for %d wsjson.Write calls", len(rep.Messages), writers*per)
+				return
+			}
+			for i, m := range rep.Messages {
+				var v any
+				if m.Type != ref.OpText {
+					fail = fmt.Sprintf("message %d is not a text message", i)
+					return
+				}
+				if err := json.Unmarshal(m.Payload, &v); err != nil {
+					fail = fmt.Sprintf("message %d is not one JSON value (%v): %q", i, err, trunc(m.Payload))
+					return
+				}
+				b, _ := json.Marshal(v)
+				// (map keys are sorted by Marshal on both sides)
+				if want[string(b)] == 0 {
+					fail = fmt.Sprintf("message %d (%q) is not one of the values written, or arrived twice", i, trunc(m.Payload))
+					return
+				}
+				want[string(b)]--
+			}
+		})
+		rec.Case(true, fmt.Sprintf("cwrite|%s|%d|%d|%v", mode.Name, writers, per, big), "concurrent-wsjson-writes")
+		if fail != "" {
+			rt.Fatalf("C19 concurrent writes mode=%s writers=%d per=%d big=%v: %s", mode.Name, writers, per, big, fail)
+		}
+	})
+}
